@@ -27,6 +27,7 @@ type WorldOpts struct {
 	MinVals       int
 	MaxVals       int
 	MaxExtraCands int
+	MinExtraCands int
 	MaxBancor     int
 	MaxTokens     int
 	MaxPools      int  // in addition to the BIP/USDT pool
@@ -369,7 +370,7 @@ func GenWorld(t *rapid.T, o WorldOpts) *World {
 
 	// candidates & validators
 	nv := rapid.IntRange(o.MinVals, o.MaxVals).Draw(t, "nVals")
-	ne := rapid.IntRange(0, o.MaxExtraCands).Draw(t, "nExtraCands")
+	ne := rapid.IntRange(o.MinExtraCands, o.MaxExtraCands).Draw(t, "nExtraCands")
 	w.NCands = nv + ne
 	var bancorIDs []coinDef
 	for _, c := range coins {
